@@ -16,8 +16,10 @@
         scatters the solution back along [e] with the default of [b] elsewhere.  The harness
         observes both operands by wrapping [solve_thunks] and compares them with [gather2] on
         every case.
-    (3) boolean oracles ([contains_b], [closed_b], ...) that judge the implementation's pattern,
-        alpha-equivalence of axes, and the check functions.
+    (3) boolean oracles ([contains_b], [closed_b], ...) that judge the implementation's pattern and
+        alpha-equivalence of axes; the check functions are in Model/PSolveCheck.v.
+    [psolve_loop] is the loop of the current code (exit test of /repo commit 6df0afb);
+    [psolve_loop_old] the loop before it (finding F25).
     Definitions only; proofs are in Proofs/PSolve_*.v. *)
 From Coq Require Import List Arith Lia PeanoNat Bool PArith QArith.
 Import ListNotations.
